@@ -36,6 +36,8 @@ type Program struct {
 	// Funcs is every function with a body that belongs to the module,
 	// including anonymous functions and bound-method wrappers seen.
 	Funcs []*ssa.Function
+	// normalised: the program was rewritten by the helper/closure normalisation
+	normalised bool
 	// Inlined lists the functions unknown to the rules whose calls were spliced.
 	Inlined []string
 	// TestPkgs is filled by LoadTests (syntax and types of _test.go files).
@@ -153,6 +155,7 @@ func load(repo string, cfg BuildConfig, overlay map[string][]byte, rounds int, l
 			np, err := load(repo, cfg, merged, rounds-1, nextMaps)
 			if err == nil {
 				np.Inlined = append(np.Inlined, names...)
+				np.normalised = true
 				return np, nil
 			}
 			fmt.Fprintf(os.Stderr, "agecheck: helper normalisation rejected (%v); keeping the previous round\n", err)
